@@ -122,6 +122,8 @@ Fixpoint origin (fuel : nat) (k : K) : option K :=
 End Cache.
 
 Arguments lookup {K} keqb k l.
+Arguments memk {K} keqb k l.
+Arguments removek {K} keqb k l.
 Arguments run {K} keqb prog gen_name has_params suffix fuel st k.
 Arguments run_hist {K} keqb prog gen_name has_params suffix fuel ks.
 Arguments fold_calls {K} r st ks.
